@@ -1,4 +1,1159 @@
-//! orderer: not built yet.
-pub fn run(args: &vh_common::Args) {
-    vh_common::unknown(args)
+//! Orderer (C11, C12): the real `p2panda_stream::orderer::Orderer` over the real `SqliteStore`
+//! against spec/Orderer.
+//!
+//! * `replay`: behaviours exported by TLC (dependency graph, delivery schedule, the await point at
+//!   which every `next` future is parked / dropped) are executed on the real processor. The
+//!   `next` futures are polled by hand; a store wrapper (`GStore`, the only harness-owned
+//!   collaborator: it delegates every call to `SqliteStore`) parks the future immediately before
+//!   and after each store call, so "drop the future at await point k" is exact and repeatable.
+//! * `record`: seeded random DAGs, redeliveries and cancellations. Here the gates are off: the
+//!   futures are dropped after a random number of *real* suspensions (sqlx round trips).
+//!   One NDJSON event per spec action; validated by `Trace_Orderer.tla`.
+//!
+//! Property-level oracles evaluated on the implementation's own output (independent of TLC's
+//! prediction): dependencies-first on the released sequence, ready set = closure of the delivered
+//! items (dependency lists read as sets), everything releasable released at quiescence (C11);
+//! nothing that left the queue is missing from the output at quiescence (C12).
+use std::cell::{Cell, RefCell};
+use std::collections::{BTreeMap, BTreeSet, HashSet};
+use std::fmt;
+use std::future::{Future, poll_fn};
+use std::pin::Pin;
+use std::rc::Rc;
+use std::str::FromStr;
+use std::task::Poll;
+
+use p2panda_core::traits::{Digest, OperationId};
+use p2panda_core::{Body, Hash, Header, LogId, Operation, SigningKey, Topic};
+use p2panda_store::operations::OperationStore;
+use p2panda_store::orderer::{OrdererStore, OrdererTestExt};
+use p2panda_store::sqlite::TransactionPermit;
+use p2panda_store::{SqliteError, SqliteStore, Transaction};
+use p2panda_stream::Processor;
+use p2panda_stream::orderer::{Orderer, Ordering};
+use serde::{Deserialize, Serialize};
+use vh_common::{Args, Outcome, Rng, TraceWriter, Value, json, read_ndjson, unknown};
+
+pub fn run(args: &Args) {
+    match args.mode.as_str() {
+        "replay" => replay(args),
+        "record" => record(args),
+        "probe" => probe(args),
+        _ => unknown(args),
+    }
+}
+
+// ------------------------------------------------------------------------------------------
+// Item type: a real `Operation` whose header extension carries the dependency list; a local id
+// newtype (the orphan rule forbids `impl Ordering<Hash> for Operation<_>` outside p2panda-stream).
+
+#[derive(Clone, Copy, Debug, PartialEq, Eq, Hash, PartialOrd, Ord, Serialize, Deserialize)]
+#[serde(transparent)]
+pub struct Hid(pub Hash);
+
+impl OperationId for Hid {}
+
+impl fmt::Display for Hid {
+    fn fmt(&self, f: &mut fmt::Formatter<'_>) -> fmt::Result {
+        write!(f, "{}", self.0.to_hex())
+    }
+}
+
+impl FromStr for Hid {
+    type Err = p2panda_core::HashError;
+    fn from_str(s: &str) -> Result<Self, Self::Err> {
+        Hash::from_str(s).map(Hid)
+    }
+}
+
+#[derive(Clone, Debug, Default, Serialize, Deserialize)]
+pub struct Ext {
+    deps: Vec<Hid>,
+    name: String,
+}
+
+pub type Op = Operation<Ext>;
+
+impl Ordering<Hid> for Op {
+    fn dependencies(&self) -> &[Hid] {
+        &self.header.extensions.deps
+    }
+}
+
+impl Digest<Hid> for Op {
+    fn hash(&self) -> Hid {
+        Hid(self.hash)
+    }
+}
+
+fn make_op(name: &str, deps: Vec<Hid>, rng: &mut Rng) -> Op {
+    let mut seed = [0u8; 32];
+    seed.copy_from_slice(&rng.bytes(32));
+    let signing_key = SigningKey::from_bytes(&seed);
+    let body: Body = name.as_bytes().to_vec().into();
+    let mut header = Header {
+        verifying_key: signing_key.verifying_key(),
+        payload_size: body.size(),
+        payload_hash: Some(body.hash()),
+        extensions: Ext {
+            deps,
+            name: name.to_string(),
+        },
+        ..Default::default()
+    };
+    header.sign(&signing_key);
+    Operation {
+        hash: header.hash(),
+        header,
+        body: Some(body),
+    }
+}
+
+// ------------------------------------------------------------------------------------------
+// Store wrapper: delegates everything to SqliteStore; optionally parks the calling future before
+// and after the store calls `Orderer::next` makes.
+
+#[derive(Default)]
+pub struct Ctl {
+    /// gates active (replay of `next`); off while `process` runs and in record mode
+    gating: Cell<bool>,
+    /// after-gates pass through (only the last call before the return needs one)
+    skip_after: Cell<bool>,
+    /// gate at which a future is parked right now
+    at: RefCell<Option<String>>,
+    /// one-shot release of the parked gate
+    go: Cell<bool>,
+    /// real store calls in flight (a Pending poll with in_call > 0 is real I/O)
+    in_call: Cell<u32>,
+    /// store calls made by `next` futures, in order (evidence + drift detection)
+    calls: RefCell<Vec<&'static str>>,
+    /// the gated store call entered last
+    last_call: Cell<&'static str>,
+}
+
+struct InCall<'a>(&'a Ctl);
+impl<'a> InCall<'a> {
+    fn new(ctl: &'a Ctl) -> Self {
+        ctl.in_call.set(ctl.in_call.get() + 1);
+        InCall(ctl)
+    }
+}
+impl Drop for InCall<'_> {
+    fn drop(&mut self) {
+        self.0.in_call.set(self.0.in_call.get() - 1);
+    }
+}
+
+#[derive(Clone)]
+pub struct GStore {
+    inner: SqliteStore,
+    ctl: Rc<Ctl>,
+}
+
+impl GStore {
+    async fn gate(&self, name: &'static str, after: bool) {
+        if !self.ctl.gating.get() || (after && self.ctl.skip_after.get()) {
+            return;
+        }
+        let label = if after { format!("{name}.after") } else { name.to_string() };
+        *self.ctl.at.borrow_mut() = Some(label);
+        self.ctl.go.set(false);
+        let ctl = self.ctl.clone();
+        poll_fn(move |_cx| {
+            if ctl.go.get() {
+                ctl.go.set(false);
+                *ctl.at.borrow_mut() = None;
+                Poll::Ready(())
+            } else {
+                Poll::Pending
+            }
+        })
+        .await
+    }
+
+    async fn gated<R>(&self, name: &'static str, call: impl Future<Output = R>) -> R {
+        self.gate(name, false).await;
+        if self.ctl.gating.get() {
+            self.ctl.calls.borrow_mut().push(name);
+        }
+        self.ctl.last_call.set(name);
+        let result = {
+            let _guard = InCall::new(&self.ctl);
+            call.await
+        };
+        self.gate(name, true).await;
+        result
+    }
+
+    async fn plain<R>(&self, call: impl Future<Output = R>) -> R {
+        let _guard = InCall::new(&self.ctl);
+        call.await
+    }
+}
+
+impl Transaction for GStore {
+    type Error = SqliteError;
+    type Permit = TransactionPermit;
+
+    async fn begin(&self) -> Result<TransactionPermit, SqliteError> {
+        self.gated("begin", self.inner.begin()).await
+    }
+
+    async fn rollback(&self, permit: TransactionPermit) -> Result<(), SqliteError> {
+        self.plain(self.inner.rollback(permit)).await
+    }
+
+    async fn commit(&self, permit: TransactionPermit) -> Result<(), SqliteError> {
+        self.gated("commit", self.inner.commit(permit)).await
+    }
+}
+
+impl OrdererStore<Hid> for GStore {
+    type Error = SqliteError;
+
+    async fn mark_ready(&self, id: Hid) -> Result<bool, SqliteError> {
+        self.plain(self.inner.mark_ready(id)).await
+    }
+
+    async fn mark_pending(&self, id: Hid, dependencies: Vec<Hid>) -> Result<bool, SqliteError> {
+        self.plain(self.inner.mark_pending(id, dependencies)).await
+    }
+
+    async fn get_next_pending(&self, id: Hid) -> Result<Option<HashSet<(Hid, Vec<Hid>)>>, SqliteError> {
+        self.plain(self.inner.get_next_pending(id)).await
+    }
+
+    async fn take_next_ready(&self) -> Result<Option<Hid>, SqliteError> {
+        self.gated("take", OrdererStore::<Hid>::take_next_ready(&self.inner)).await
+    }
+
+    async fn remove_pending(&self, id: Hid) -> Result<bool, SqliteError> {
+        self.plain(self.inner.remove_pending(id)).await
+    }
+
+    async fn ready(&self, keys: &[Hid]) -> Result<bool, SqliteError> {
+        self.plain(self.inner.ready(keys)).await
+    }
+}
+
+impl OperationStore<Op, Hid> for GStore {
+    type Error = SqliteError;
+
+    async fn insert_operation<L: LogId>(&self, id: &Hid, operation: &Op, log_id: &L) -> Result<bool, SqliteError> {
+        self.plain(self.inner.insert_operation(&id.0, operation, log_id)).await
+    }
+
+    async fn get_operation(&self, id: &Hid) -> Result<Option<Op>, SqliteError> {
+        self.gated("get", self.inner.get_operation(&id.0)).await
+    }
+
+    async fn get_operation_tx(&self, id: &Hid) -> Result<Option<Op>, SqliteError> {
+        self.gated("get", self.inner.get_operation_tx(&id.0)).await
+    }
+
+    async fn has_operation(&self, id: &Hid) -> Result<bool, SqliteError> {
+        self.plain(OperationStore::<Op, Hash>::has_operation(&self.inner, &id.0)).await
+    }
+
+    async fn has_operation_tx(&self, id: &Hid) -> Result<bool, SqliteError> {
+        self.plain(OperationStore::<Op, Hash>::has_operation_tx(&self.inner, &id.0)).await
+    }
+
+    async fn delete_operation(&self, id: &Hid) -> Result<bool, SqliteError> {
+        self.plain(OperationStore::<Op, Hash>::delete_operation(&self.inner, &id.0)).await
+    }
+
+    async fn delete_operation_payload(&self, id: &Hid) -> Result<bool, SqliteError> {
+        self.plain(OperationStore::<Op, Hash>::delete_operation_payload(&self.inner, &id.0)).await
+    }
+}
+
+// ------------------------------------------------------------------------------------------
+// One world: a dependency graph concretised as real operations in a fresh in-memory database.
+
+type Ord3 = Orderer<Op, Hid, GStore>;
+
+struct World {
+    store: GStore,
+    ctl: Rc<Ctl>,
+    /// spec name -> operation (deliverable items)
+    ops: BTreeMap<String, Op>,
+    /// hash -> spec name (items and missing ids)
+    names: BTreeMap<Hid, String>,
+    /// spec name -> dependency names as a set
+    depsets: BTreeMap<String, BTreeSet<String>>,
+    delivered: BTreeSet<String>,
+}
+
+impl World {
+    /// `graph`: name -> dependency list (names; entries may repeat; unknown names are "missing"
+    /// ids). Names must be given so that dependencies on other *items* can be resolved in some
+    /// order (a DAG); cyclic references are not constructible with hash ids.
+    async fn new(inner: &SqliteStore, graph: &BTreeMap<String, Vec<String>>, rng: &mut Rng) -> World {
+        // One in-memory database serves many runs (creating one costs ~100 ms of migrations):
+        // the three tables the orderer touches are emptied between runs.
+        let inner = inner.clone();
+        for table in ["orderer_ready_v1", "orderer_pending_v1", "operations_v1"] {
+            sqlx::query(&format!("DELETE FROM {table}"))
+                .execute(inner.pool())
+                .await
+                .expect("reset table");
+        }
+        let ctl = Rc::new(Ctl::default());
+        ctl.skip_after.set(true);
+        let store = GStore {
+            inner,
+            ctl: ctl.clone(),
+        };
+        let mut ids: BTreeMap<String, Hid> = BTreeMap::new();
+        let mut ops: BTreeMap<String, Op> = BTreeMap::new();
+        let mut names = BTreeMap::new();
+        let mut depsets = BTreeMap::new();
+        // missing ids: hashes of operations that are never stored nor delivered
+        for deps in graph.values() {
+            for d in deps {
+                if !graph.contains_key(d) && !ids.contains_key(d) {
+                    let ghost = make_op(d, vec![], rng);
+                    ids.insert(d.clone(), Hid(ghost.hash));
+                    names.insert(Hid(ghost.hash), d.clone());
+                }
+            }
+        }
+        // items in dependency order
+        let mut remaining: Vec<&String> = graph.keys().collect();
+        while !remaining.is_empty() {
+            let before = remaining.len();
+            remaining.retain(|name| {
+                let deps = &graph[*name];
+                if deps.iter().all(|d| ids.contains_key(d)) {
+                    let mut dep_ids: Vec<Hid> = deps.iter().map(|d| ids[d]).collect();
+                    // the order of the list as handed to the orderer is arbitrary
+                    rng.shuffle(&mut dep_ids);
+                    let op = make_op(name, dep_ids, rng);
+                    ids.insert((*name).clone(), Hid(op.hash));
+                    names.insert(Hid(op.hash), (*name).clone());
+                    ops.insert((*name).clone(), op);
+                    depsets.insert((*name).clone(), deps.iter().cloned().collect::<BTreeSet<_>>());
+                    false
+                } else {
+                    true
+                }
+            });
+            assert!(remaining.len() < before, "dependency graph is not a DAG");
+        }
+        // the operations are in the operation store before they reach the orderer (ingest ran)
+        let permit = store.inner.begin().await.expect("begin");
+        let log_id = Topic::random();
+        for op in ops.values() {
+            store.inner.insert_operation(&op.hash, op, &log_id).await.expect("insert operation");
+        }
+        store.inner.commit(permit).await.expect("commit");
+        World {
+            store,
+            ctl,
+            ops,
+            names,
+            depsets,
+            delivered: BTreeSet::new(),
+        }
+    }
+
+    fn orderer(&self) -> Ord3 {
+        Orderer::new(self.store.clone())
+    }
+
+    fn name_of(&self, op: &Op) -> String {
+        self.names.get(&Hid(op.hash)).cloned().unwrap_or_else(|| "?".into())
+    }
+
+    /// least set closed under "delivered and every dependency (as a set) in the set"
+    fn closure(&self) -> BTreeSet<String> {
+        let mut acc: BTreeSet<String> = BTreeSet::new();
+        loop {
+            let new: Vec<String> = self
+                .delivered
+                .iter()
+                .filter(|x| !acc.contains(*x) && self.depsets[*x].iter().all(|d| acc.contains(d)))
+                .cloned()
+                .collect();
+            if new.is_empty() {
+                return acc;
+            }
+            acc.extend(new);
+        }
+    }
+
+    /// Committed state through the store's public API (own transaction, rolled back).
+    async fn observe(&self) -> Obs {
+        let s = &self.store.inner;
+        let permit = s.begin().await.expect("begin (observe)");
+        let mut ready = BTreeSet::new();
+        for (id, name) in &self.names {
+            if s.ready(&[*id]).await.expect("ready") {
+                ready.insert(name.clone());
+            }
+        }
+        let inq = s.ready_queue_len().await;
+        let nready = s.ready_len().await;
+        let pend = s.pending_len().await;
+        s.rollback(permit).await.expect("rollback (observe)");
+        Obs {
+            ready,
+            nready,
+            inq,
+            pend,
+        }
+    }
+
+    async fn process(&mut self, orderer: &Ord3, name: &str) -> Result<(), String> {
+        let was = self.ctl.gating.replace(false);
+        let op = self.ops[name].clone();
+        let r = tokio::task::unconstrained(orderer.process(op)).await;
+        self.ctl.gating.set(was);
+        match r {
+            Ok(()) => {
+                self.delivered.insert(name.to_string());
+                Ok(())
+            }
+            Err((_, e)) => Err(e.to_string()),
+        }
+    }
+}
+
+#[derive(Clone, Debug, PartialEq, Eq)]
+struct Obs {
+    ready: BTreeSet<String>,
+    nready: usize,
+    inq: usize,
+    pend: usize,
+}
+
+// ------------------------------------------------------------------------------------------
+// Hand-polled `next` future
+
+type NextResult = Result<Op, String>;
+type NextFut<'a> = Pin<Box<dyn Future<Output = NextResult> + 'a>>;
+
+fn start_next<'a>(orderer: &'a Ord3) -> NextFut<'a> {
+    Box::pin(tokio::task::unconstrained(async move {
+        orderer.next().await.map_err(|(_, e)| e.to_string())
+    }))
+}
+
+#[derive(Debug, Clone, PartialEq, Eq)]
+enum Parked {
+    /// parked at a gate of the store wrapper
+    Gate(String),
+    /// pending on an await that is not a store call (the Notify)
+    Notified,
+    Done(NextResult),
+}
+
+/// Polls the future until it parks at a gate, parks on a non-store await, or completes. Real
+/// I/O suspensions (sqlx worker round trips) are waited for with the task's real waker.
+async fn advance(fut: &mut NextFut<'_>, ctl: &Ctl) -> Parked {
+    let mut confirm = 0;
+    loop {
+        let r = poll_fn(|cx| match fut.as_mut().poll(cx) {
+            Poll::Ready(v) => Poll::Ready(Parked::Done(v)),
+            Poll::Pending => {
+                if let Some(g) = ctl.at.borrow().clone() {
+                    Poll::Ready(Parked::Gate(g))
+                } else if ctl.in_call.get() == 0 {
+                    Poll::Ready(Parked::Notified)
+                } else {
+                    Poll::Pending
+                }
+            }
+        })
+        .await;
+        if r == Parked::Notified && confirm < 2 {
+            // let spawned tasks (rollback of a dropped permit) run, then make sure it stays parked
+            confirm += 1;
+            tokio::task::yield_now().await;
+            continue;
+        }
+        return r;
+    }
+}
+
+/// One real suspension: polls the future once; if it is pending on real I/O (or on the
+/// semaphore a spawned rollback still holds) waits until its waker fires and returns `None`
+/// WITHOUT polling again, so the caller can drop the future exactly there. Used by the
+/// recorder (gates off).
+async fn poll_once(fut: &mut NextFut<'_>, ctl: &Ctl) -> Option<Parked> {
+    let mut polled = false;
+    poll_fn(|cx| {
+        if polled {
+            return Poll::Ready(None);
+        }
+        polled = true;
+        match fut.as_mut().poll(cx) {
+            Poll::Ready(v) => Poll::Ready(Some(Parked::Done(v))),
+            Poll::Pending => {
+                if ctl.in_call.get() == 0 {
+                    Poll::Ready(Some(Parked::Notified))
+                } else {
+                    Poll::Pending
+                }
+            }
+        }
+    })
+    .await
+}
+
+fn drop_next(fut: &mut Option<NextFut<'_>>, ctl: &Ctl) {
+    *fut = None;
+    *ctl.at.borrow_mut() = None;
+    ctl.go.set(false);
+}
+
+fn runtime() -> tokio::runtime::Runtime {
+    tokio::runtime::Builder::new_current_thread()
+        .enable_all()
+        .build()
+        .expect("runtime")
+}
+
+// ------------------------------------------------------------------------------------------
+// Replay (spec -> impl)
+
+fn graph_from(b: &Value) -> BTreeMap<String, Vec<String>> {
+    let mut g = BTreeMap::new();
+    if let Some(obj) = b["deps"].as_object() {
+        for (k, v) in obj {
+            let deps = v
+                .as_array()
+                .map(|a| a.iter().map(|d| d.as_str().unwrap().to_string()).collect())
+                .unwrap_or_default();
+            g.insert(k.clone(), deps);
+        }
+    }
+    g
+}
+
+/// The input part of a behaviour: graph + the action sequence without its outputs.
+fn input_key(b: &Value) -> String {
+    let steps: Vec<Value> = b["steps"]
+        .as_array()
+        .expect("steps")
+        .iter()
+        .map(|s| {
+            let mut o = serde_json::Map::new();
+            for k in ["a", "x", "at", "to"] {
+                if let Some(v) = s.get(k) {
+                    o.insert(k.to_string(), v.clone());
+                }
+            }
+            Value::Object(o)
+        })
+        .collect();
+    json!({"deps": b["deps"], "steps": steps}).to_string()
+}
+
+/// Expected outputs of a behaviour, in step order: (ready set, in-queue count, released) per
+/// observed step, and the id of every `Ret`.
+fn expected_outputs(b: &Value) -> Vec<Value> {
+    b["steps"]
+        .as_array()
+        .expect("steps")
+        .iter()
+        .filter(|s| s.get("obs").is_some())
+        .map(|s| {
+            let mut ready: Vec<String> = s["obs"]["ready"]
+                .as_array()
+                .map(|a| a.iter().map(|x| x.as_str().unwrap().to_string()).collect())
+                .unwrap_or_default();
+            ready.sort();
+            json!({"id": s.get("id").cloned().unwrap_or(Value::Null), "ready": ready,
+                   "inq": s["obs"]["inq"], "released": s["obs"]["released"]})
+        })
+        .collect()
+}
+
+struct RunResult {
+    outputs: Vec<Value>,
+    pend: Vec<usize>,
+    released: Vec<String>,
+    /// property-level findings: (property, signature, detail)
+    findings: Vec<(&'static str, String, String)>,
+    /// the await structure of the code is not the one the spec describes
+    drift: Option<String>,
+    calls: Vec<&'static str>,
+}
+
+fn pc_of(p: &Parked) -> String {
+    match p {
+        Parked::Gate(g) if g.ends_with(".after") => "ret".to_string(),
+        Parked::Gate(g) => g.clone(),
+        Parked::Notified => "notified".to_string(),
+        Parked::Done(_) => "idle".to_string(),
+    }
+}
+
+async fn run_behaviour(db: &SqliteStore, b: &Value, rng: &mut Rng) -> RunResult {
+    let graph = graph_from(b);
+    let mut w = World::new(db, &graph, rng).await;
+    let orderer = w.orderer();
+    let ctl = w.ctl.clone();
+    let mut res = RunResult {
+        outputs: vec![],
+        pend: vec![],
+        released: vec![],
+        findings: vec![],
+        drift: None,
+        calls: vec![],
+    };
+    let mut fut: Option<NextFut<'_>> = None;
+    // where the in-flight future is parked ("idle" = no future, "lock" = created, not polled)
+    let mut at = "idle".to_string();
+
+    macro_rules! observe {
+        ($id:expr) => {{
+            let o = w.observe().await;
+            res.pend.push(o.pend);
+            res.outputs.push(json!({"id": $id, "ready": o.ready.iter().collect::<Vec<_>>(),
+                                     "inq": o.inq, "released": res.released}));
+            o
+        }};
+    }
+
+    for step in b["steps"].as_array().expect("steps") {
+        match step["a"].as_str().expect("a") {
+            "Input" => {
+                let want = step["at"].as_str().unwrap();
+                if want != at {
+                    res.drift = Some(format!("Input expects `next` parked at {want}, the code is at {at}"));
+                    return res;
+                }
+                drop_next(&mut fut, &ctl);
+                at = "idle".into();
+                let x = step["x"].as_str().unwrap();
+                if let Err(e) = w.process(&orderer, x).await {
+                    res.findings.push(("*", "process-error".into(), format!("process({x}) failed: {e}")));
+                    return res;
+                }
+            }
+            "ProcDone" => {
+                let o = observe!(Value::Null);
+                let clo = w.closure();
+                if o.ready != clo {
+                    let sig = if o.ready.is_subset(&clo) {
+                        "ready-set-misses-item-with-all-dependencies-processed"
+                    } else {
+                        "ready-set-contains-item-with-unprocessed-dependency"
+                    };
+                    res.findings.push((
+                        "C11",
+                        sig.into(),
+                        format!(
+                            "after process({}): ready set {:?}, closure of delivered {:?} is {:?}",
+                            step["x"], o.ready, w.delivered, clo
+                        ),
+                    ));
+                }
+            }
+            "NextCall" => {
+                ctl.gating.set(true);
+                ctl.skip_after.set(true);
+                fut = Some(start_next(&orderer));
+                at = "new".into();
+            }
+            "Step" | "Ret" => {
+                let Some(f) = fut.as_mut() else {
+                    res.drift = Some("step without a `next` future".into());
+                    return res;
+                };
+                let to = if step["a"] == "Ret" { "idle" } else { step["to"].as_str().unwrap() };
+                ctl.skip_after.set(to != "ret");
+                ctl.go.set(true);
+                let p = advance(f, &ctl).await;
+                let got = pc_of(&p);
+                if got != to {
+                    res.drift = Some(format!(
+                        "`next` parked at {got} where the spec has {to} (after {at}; calls so far {:?})",
+                        ctl.calls.borrow()
+                    ));
+                    return res;
+                }
+                at = got;
+                if let Parked::Done(r) = p {
+                    fut = None;
+                    match r {
+                        Ok(op) => {
+                            let name = w.name_of(&op);
+                            res.released.push(name.clone());
+                            observe!(json!(name));
+                        }
+                        Err(e) => {
+                            res.findings.push(("*", "next-error".into(), format!("next failed: {e}")));
+                            return res;
+                        }
+                    }
+                }
+            }
+            "Cancel" => {
+                let want = step["at"].as_str().unwrap();
+                if want != at {
+                    res.drift = Some(format!("Cancel expects `next` parked at {want}, the code is at {at}"));
+                    return res;
+                }
+                drop_next(&mut fut, &ctl);
+                at = "idle".into();
+                observe!(Value::Null);
+            }
+            other => panic!("unknown step {other}"),
+        }
+    }
+    // The behaviour ends at quiescence: `next` parked on the Notify, nothing left to deliver.
+    drop_next(&mut fut, &ctl);
+    ctl.gating.set(false);
+    let o = w.observe().await;
+    res.calls = ctl.calls.borrow().clone();
+    property_oracles(&w, &res.released, &o, true, &mut res.findings);
+    res
+}
+
+/// C11 / C12 judged on the implementation's own output.
+fn property_oracles(
+    w: &World,
+    released: &[String],
+    o: &Obs,
+    quiescent: bool,
+    findings: &mut Vec<(&'static str, String, String)>,
+) {
+    // C11: dependencies first
+    for (i, x) in released.iter().enumerate() {
+        if let Some(ds) = w.depsets.get(x) {
+            for d in ds {
+                if !released[..i].contains(d) {
+                    findings.push((
+                        "C11",
+                        "released-before-dependency".into(),
+                        format!("{x} released at position {i} before its dependency {d}: {released:?}"),
+                    ));
+                }
+            }
+        }
+    }
+    if quiescent {
+        let clo = w.closure();
+        let rel: BTreeSet<String> = released.iter().cloned().collect();
+        // C12: every item that left the queue (ready, not in_queue) was returned by `next`
+        let gone: Vec<&String> = o.ready.iter().filter(|x| !rel.contains(*x)).collect();
+        if o.inq == 0 && !gone.is_empty() {
+            findings.push((
+                "C12",
+                "item-left-queue-but-never-returned".into(),
+                format!("queue empty, ready {:?}, but `next` returned only {released:?}: lost {gone:?}", o.ready),
+            ));
+        }
+        // C11: everything whose dependencies were all processed has been released
+        let stuck: Vec<&String> = clo.iter().filter(|x| !o.ready.contains(*x)).collect();
+        if !stuck.is_empty() {
+            findings.push((
+                "C11",
+                "item-with-all-dependencies-processed-never-released".into(),
+                format!("delivered {:?}: {stuck:?} never became ready (released {released:?})", w.delivered),
+            ));
+        }
+        if o.inq != 0 {
+            findings.push((
+                "C11",
+                "queue-not-drained-at-quiescence".into(),
+                format!("`next` parked with {} item(s) still queued", o.inq),
+            ));
+        }
+    }
+}
+
+fn replay(args: &Args) {
+    let behaviours = read_ndjson(args.input.as_ref().expect("--in"));
+    let prop = args.extra.get("prop").cloned().unwrap_or_else(|| "*".into());
+    let mut out = Outcome::new(
+        args,
+        "every TLC behaviour (graph x delivery schedule x await point of each drop of `next`) executed on the real \
+         Orderer over SqliteStore, grouped by input (the order in which `process_pending` visits siblings is not \
+         controllable: the implementation's outputs must equal the outputs of one behaviour of the group); \
+         non-trivial = graph with at least one dependency; distinct by graph + action sequence",
+    );
+    // group by input
+    let mut groups: BTreeMap<String, Vec<&Value>> = BTreeMap::new();
+    for b in &behaviours {
+        groups.entry(input_key(b)).or_default().push(b);
+    }
+    let rt = runtime();
+    let mut rng = Rng::new(args.seed);
+    let mut drift: Option<String> = None;
+    let mut db: Option<SqliteStore> = None;
+    for (key, group) in &groups {
+        let b = group[0];
+        out.eval();
+        let mut case_rng = Rng::new(rng.next_u64());
+        if db.is_none() {
+            db = Some(rt.block_on(SqliteStore::temporary()));
+        }
+        let store = db.clone().unwrap();
+        let res = match vh_common::catch(|| {
+            let local = tokio::task::LocalSet::new();
+            rt.block_on(local.run_until(run_behaviour(&store, b, &mut case_rng)))
+        }) {
+            Ok(r) => r,
+            Err(p) => {
+                db = None; // do not reuse a database a panicking run may have left mid-transaction
+                out.violation(&prop, "orderer-panics", p, b.clone());
+                continue;
+            }
+        };
+        if res.drift.is_some() || !res.findings.is_empty() {
+            db = None;
+        }
+        if graph_from(b).values().any(|d| !d.is_empty()) {
+            out.mark_distinct(key.clone());
+        }
+        for c in &res.calls {
+            out.count(&format!("store-call:{c}"));
+        }
+        for step in b["steps"].as_array().unwrap() {
+            match step["a"].as_str().unwrap() {
+                "Cancel" | "Input" => out.count(&format!("drop-at:{}", step["at"].as_str().unwrap())),
+                _ => {}
+            }
+        }
+        if let Some(d) = res.drift {
+            // Not a verdict about the property: the spec's await structure is not the code's.
+            drift.get_or_insert(format!("{d}; behaviour {b}"));
+            out.count("drift");
+            continue;
+        }
+        for (p, sig, detail) in &res.findings {
+            let p = if *p == "*" { prop.as_str() } else { p };
+            out.violation(p, sig, detail.clone(), b.clone());
+        }
+        let matches = group.iter().any(|cand| expected_outputs(cand) == res.outputs);
+        if !matches {
+            out.count("outputs-differ-from-spec");
+            if res.findings.is_empty() {
+                out.violation(
+                    &prop,
+                    "outputs-differ-from-spec",
+                    format!(
+                        "implementation outputs {} match none of the {} spec behaviour(s) for this input, e.g. {}",
+                        Value::Array(res.outputs.clone()),
+                        group.len(),
+                        Value::Array(expected_outputs(group[0]))
+                    ),
+                    b.clone(),
+                );
+            }
+        } else {
+            out.sample(b.clone());
+        }
+    }
+    out.count_by("behaviours", behaviours.len() as u64);
+    out.count_by("input-groups", groups.len() as u64);
+    if let Some(d) = drift {
+        eprintln!("SPEC DRIFT (tool error, not a verdict): {d}");
+        out.write(args);
+        std::process::exit(2);
+    }
+    out.write(args);
+}
+
+// ------------------------------------------------------------------------------------------
+// Record (impl -> spec)
+
+fn record(args: &Args) {
+    let mut out = Outcome::new(
+        args,
+        "seeded random DAGs (<= 12 items, repeated and missing dependency entries), random redelivery, `next` \
+         futures dropped after a random number of real suspensions; one event per process / completed, parked or \
+         dropped `next`; non-trivial = run with at least one drop of a `next` future that had started",
+    );
+    let mut tw = TraceWriter::create(args.out.as_ref().expect("--out"));
+    let rt = runtime();
+    let mut rng = Rng::new(args.seed ^ 0x0c11);
+    let runs = if args.n == 0 { 20 } else { args.n };
+    let mut db: Option<SqliteStore> = None;
+    let mut db_files: Vec<std::path::PathBuf> = Vec::new();
+    for run in 0..runs {
+        out.eval();
+        let mut case_rng = Rng::new(rng.next_u64());
+        let thorough = args.thorough();
+        if db.is_none() {
+            db = Some(rt.block_on(file_db(&mut db_files)));
+        }
+        let store = db.clone().unwrap();
+        let r = vh_common::catch(|| {
+            let local = tokio::task::LocalSet::new();
+            rt.block_on(local.run_until(record_run(&store, &mut case_rng, thorough)))
+        });
+        if r.as_ref().map(|rr| !rr.findings.is_empty()).unwrap_or(true) {
+            db = None;
+        }
+        match r {
+            Ok(rr) => {
+                for e in rr.events {
+                    tw.event(e);
+                }
+                if rr.started_drops > 0 {
+                    out.mark_distinct(format!("run{run}"));
+                }
+                out.count_by("drops", rr.drops);
+                out.count_by("drops-after-start", rr.started_drops);
+                out.count_by("returns", rr.returns);
+                for (p, sig, detail) in rr.findings {
+                    out.violation(p, &sig, detail, rr.case.clone());
+                }
+                out.sample(rr.case);
+            }
+            Err(p) => out.violation("C11", "orderer-panics", p, json!({"run": run, "seed": args.seed})),
+        }
+    }
+    let (events, runs) = tw.finish();
+    out.set_trace(events, runs);
+    drop(db);
+    for f in db_files {
+        for ext in ["", "-wal", "-shm", "-journal"] {
+            let _ = std::fs::remove_file(format!("{}{ext}", f.display()));
+        }
+    }
+    out.write(args);
+}
+
+/// A database file in the working directory with the builder's default (production) pool. The
+/// recommended in-memory configuration has a single connection, and sqlx replaces a connection
+/// whose `begin`/query future was dropped half-way - which silently swaps an in-memory database
+/// for an empty one. That is an artefact of `:memory:`, not of the orderer, so the recorder (which
+/// drops futures at real sqlx suspensions) uses a file.
+async fn file_db(files: &mut Vec<std::path::PathBuf>) -> SqliteStore {
+    let path = std::env::current_dir()
+        .expect("cwd")
+        .join(format!("orderer-record-{}-{}.db", std::process::id(), files.len()));
+    let _ = std::fs::remove_file(&path);
+    files.push(path.clone());
+    p2panda_store::SqliteStoreBuilder::new()
+        .database_url(&format!("sqlite://{}", path.display()))
+        .build()
+        .await
+        .expect("database file")
+}
+
+struct RecordRun {
+    events: Vec<Value>,
+    findings: Vec<(&'static str, String, String)>,
+    case: Value,
+    drops: u64,
+    started_drops: u64,
+    returns: u64,
+}
+
+fn random_graph(rng: &mut Rng, thorough: bool) -> (Vec<String>, BTreeMap<String, Vec<String>>) {
+    let n = rng.range(2, if thorough { 12 } else { 8 }) as usize;
+    let names: Vec<String> = (0..n).map(|i| format!("i{i:02}")).collect();
+    let mut g = BTreeMap::new();
+    for (i, name) in names.iter().enumerate() {
+        let mut deps = Vec::new();
+        let k = if i == 0 { 0 } else { rng.below(4) as usize };
+        for _ in 0..k {
+            if rng.chance(1, 12) {
+                deps.push(format!("m{}", rng.below(2)));
+            } else {
+                deps.push(names[rng.below(i as u64) as usize].clone());
+            }
+        }
+        // repeated entries
+        if !deps.is_empty() && rng.chance(1, 4) {
+            let d = rng.pick(&deps).clone();
+            deps.push(d);
+        }
+        deps.sort();
+        g.insert(name.clone(), deps);
+    }
+    (names, g)
+}
+
+async fn record_run(db: &SqliteStore, rng: &mut Rng, thorough: bool) -> RecordRun {
+    let (names, graph) = random_graph(rng, thorough);
+    let mut w = World::new(db, &graph, rng).await;
+    let orderer = w.orderer();
+    let ctl = w.ctl.clone();
+    ctl.gating.set(false);
+    // delivery schedule: a random subset in random order, with some redeliveries
+    let mut sched: Vec<String> = names.iter().filter(|_| !rng.chance(1, 10)).cloned().collect();
+    for _ in 0..rng.below(3) {
+        if !sched.is_empty() {
+            let d = rng.pick(&sched).clone();
+            sched.push(d);
+        }
+    }
+    rng.shuffle(&mut sched);
+    let mut rr = RecordRun {
+        events: vec![json!({"ev": "Reset", "deps": graph})],
+        findings: vec![],
+        case: json!({"deps": graph, "schedule": sched}),
+        drops: 0,
+        started_drops: 0,
+        returns: 0,
+    };
+    let mut released: Vec<String> = Vec::new();
+    let mut todo: std::collections::VecDeque<String> = sched.into_iter().collect();
+    // the in-flight `next` future, the number of polls it has seen, whether it is parked on the Notify
+    let mut fut: Option<NextFut<'_>> = None;
+    let mut polls: i64 = 0;
+    let mut parked = false;
+
+    enum Act {
+        Deliver,
+        DropOnly,
+        Poll,
+        Finish,
+    }
+    loop {
+        // Buffer-like driver: the input branch wins (drops the pending `next` future, then
+        // `process(input).await`), or some other caller drops the future, or it is polled on.
+        let act = if parked {
+            if todo.is_empty() { Act::Finish } else { Act::Deliver }
+        } else if !todo.is_empty() && rng.chance(1, 3) {
+            Act::Deliver
+        } else if fut.is_some() && rng.chance(1, 8) {
+            Act::DropOnly
+        } else {
+            Act::Poll
+        };
+        if matches!(act, Act::Deliver | Act::DropOnly | Act::Finish) && fut.is_some() {
+            drop_next(&mut fut, &ctl);
+            rr.drops += 1;
+            if polls > 0 {
+                rr.started_drops += 1;
+            }
+            if std::env::var_os("VH_DEBUG").is_some() {
+                eprintln!("drop after {polls} polls, parked={parked}, last_call={}, in_call={}", ctl.last_call.get(), ctl.in_call.get());
+            }
+            let o = w.observe().await;
+            rr.events.push(json!({"ev": "Cancel", "polls": if parked { -1 } else { polls },
+                "ready": o.ready.iter().collect::<Vec<_>>(), "inq": o.inq, "pend": o.pend,
+                "nrel": released.len()}));
+            polls = 0;
+            parked = false;
+            if matches!(act, Act::Finish) {
+                property_oracles(&w, &released, &o, true, &mut rr.findings);
+                break;
+            }
+        }
+        match act {
+            Act::Finish => unreachable!("a parked future exists"),
+            Act::DropOnly => {}
+            Act::Deliver => {
+                let x = todo.pop_front().unwrap();
+                if let Err(e) = w.process(&orderer, &x).await {
+                    rr.findings.push(("C11", "process-error".into(), e));
+                    break;
+                }
+                let o = w.observe().await;
+                rr.events.push(json!({"ev": "Proc", "x": x,
+                    "ready": o.ready.iter().collect::<Vec<_>>(), "inq": o.inq, "pend": o.pend}));
+                let clo = w.closure();
+                if o.ready != clo {
+                    rr.findings.push((
+                        "C11",
+                        if o.ready.is_subset(&clo) {
+                            "ready-set-misses-item-with-all-dependencies-processed".into()
+                        } else {
+                            "ready-set-contains-item-with-unprocessed-dependency".into()
+                        },
+                        format!("after process({x}): ready {:?}, closure {:?}", o.ready, clo),
+                    ));
+                }
+            }
+            Act::Poll => {
+                if fut.is_none() {
+                    fut = Some(start_next(&orderer));
+                    polls = 0;
+                }
+                let f = fut.as_mut().unwrap();
+                match poll_once(f, &ctl).await {
+                    None => polls += 1, // resumed after one real suspension
+                    Some(Parked::Done(r)) => {
+                        fut = None;
+                        polls = 0;
+                        match r {
+                            Ok(op) => {
+                                let name = w.name_of(&op);
+                                released.push(name.clone());
+                                rr.returns += 1;
+                                let o = w.observe().await;
+                                rr.events.push(json!({"ev": "Ret", "id": name,
+                                    "ready": o.ready.iter().collect::<Vec<_>>(), "inq": o.inq, "pend": o.pend}));
+                            }
+                            Err(e) => {
+                                rr.findings.push(("C12", "next-error".into(), e));
+                                break;
+                            }
+                        }
+                    }
+                    Some(Parked::Notified) => {
+                        // make sure it really stays parked (a spawned rollback may wake it)
+                        tokio::task::yield_now().await;
+                        if let Some(Parked::Notified) = poll_once(f, &ctl).await {
+                            rr.events.push(json!({"ev": "Park"}));
+                            parked = true;
+                        }
+                    }
+                    Some(Parked::Gate(_)) => unreachable!("gates are off in record mode"),
+                }
+            }
+        }
+    }
+    rr.case["released"] = json!(released);
+    rr
+}
+
+/// Diagnostic (not a check step): drop a `next` future after k real polls and report what the
+/// store looks like afterwards.
+fn probe(args: &Args) {
+    let rt = runtime();
+    let mut rng = Rng::new(args.seed);
+    let file = args.extra.get("db").cloned();
+    for k in 0..14u32 {
+        let r = vh_common::catch(|| {
+            let local = tokio::task::LocalSet::new();
+            rt.block_on(local.run_until(async {
+                let db = match &file {
+                    Some(path) => {
+                        let _ = std::fs::remove_file(path);
+                        p2panda_store::SqliteStoreBuilder::new()
+                            .database_url(&format!("sqlite://{path}"))
+                            .max_connections(1)
+                            .min_connections(1)
+                            .build()
+                            .await
+                            .expect("file db")
+                    }
+                    None => SqliteStore::temporary().await,
+                };
+                let mut graph = BTreeMap::new();
+                graph.insert("a".to_string(), vec![]);
+                let mut w = World::new(&db, &graph, &mut rng).await;
+                let orderer = w.orderer();
+                w.process(&orderer, "a").await.unwrap();
+                let mut fut = Some(start_next(&orderer));
+                let mut state = "pending".to_string();
+                for _ in 0..k {
+                    match poll_once(fut.as_mut().unwrap(), &w.ctl).await {
+                        None => {}
+                        Some(p) => {
+                            state = format!("{p:?}").chars().take(40).collect();
+                            break;
+                        }
+                    }
+                }
+                let call = w.ctl.last_call.get();
+                drop_next(&mut fut, &w.ctl);
+                let o = w.observe().await;
+                format!("k={k} last_call={call} state={state} -> ready={:?} inq={}", o.ready, o.inq)
+            }))
+        });
+        println!("{r:?}");
+    }
 }
